@@ -9,6 +9,7 @@ import (
 	"fmt"
 	"math/rand"
 	"os"
+	"runtime/debug"
 	"sort"
 	"strconv"
 	"strings"
@@ -134,6 +135,9 @@ func sortedKeys(m map[string]int) []string {
 
 // protect runs f and reports whether it panicked.
 func protect(f func()) (panicked bool, msg string) {
+	// a fault at a non-nil address (reading a value through the wrong unsafe cast) becomes a panic instead of killing
+	// the harness
+	defer debug.SetPanicOnFault(debug.SetPanicOnFault(true))
 	defer func() {
 		if r := recover(); r != nil {
 			panicked = true
